@@ -121,9 +121,36 @@ theorem push_pop (s : Stk) (p : Pop) :
     step (step s (.push p)).1 .pop = (s, .pop p) := by
   simp [step, vecPop]
 
+/-- `SplitPopulationByObjectiveValue` keeps exactly the individuals it was given, puts the better half
+(size `⌈n/2⌉`) on top, and no individual of the top half is worse than one of the lower half. -/
+theorem split_spec (p lower upper : Pop) (h : splitPop p = some (lower, upper)) :
+    (lower ++ upper).Perm p ∧ lower.length = (p.length + 1) / 2 ∧
+    ∀ a ∈ lower, ∀ b ∈ upper, a ≤ b := by
+  unfold splitPop at h
+  simp only at h
+  split at h
+  · cases h
+  · injection h with h
+    injection h with h1 h2
+    subst h1; subst h2
+    refine ⟨?_, ?_, ?_⟩
+    · rw [List.take_append_drop]; exact List.mergeSort_perm _ _
+    · simp [List.length_mergeSort]; omega
+    · have hs : (p.mergeSort (fun a b => decide (a ≤ b))).Pairwise (fun a b => a ≤ b) := by
+        have := List.pairwise_mergeSort (le := fun a b : Nat => decide (a ≤ b))
+          (fun a b c hab hbc => by simp at *; omega) (fun a b => by simp; omega) p
+        simpa using this
+      rw [← List.take_append_drop ((p.length + 1) / 2) (p.mergeSort _)] at hs
+      exact (List.pairwise_append.mp hs).2.2
+
+/-- It panics exactly on fewer than two individuals (and then the population is gone). -/
+theorem split_panics_iff (p : Pop) : splitPop p = none ↔ p.length < 2 := by
+  unfold splitPop; simp
+
 /-! Non-vacuity: the hypotheses are met by a concrete non-trivial stack. -/
 example : (3 : Nat) ≤ ([[1], [2, 3], [4], [5]] : Stk).length := by decide
 example : iter (fun x => (step x (.rot 3)).1) 3 [[1], [2, 3], [4], [5]] = [[1], [2, 3], [4], [5]] := by decide
 example : (step [[1], [2, 3], [4], [5]] (.rot 3)).1 = [[1], [5], [2, 3], [4]] := by decide
+example : (splitPop [5, 1, 4, 2, 3]).isSome = true := by simp [splitPop]
 
 end MahfModel.Props.C04
